@@ -448,9 +448,7 @@ impl Prop for C09 {
                     };
                     s /= 5;
                 }
-                if c == [0xff; 4] {
-                    c[0] = 0xfe;
-                }
+                // (FF FF FF FF is a challenge value like any other: "whatever its value")
                 srv.fixed_challenges = vec![c];
                 let addr = scn.addr();
                 let d = json!({"family": "valve", "first_challenge": hex(&c), "stratum": stratum, "challenge_rounds": scn.enc.iter().map(|e| e.challenge_rounds).collect::<Vec<_>>()});
